@@ -1527,6 +1527,16 @@ func (g *Gen) try(m *Model, eng *Engine) *Cmd {
 			cmd.Native, cmd.T = "activate", ""
 			break
 		}
+		if r.Chance(0.12) {
+			// SetInterpreter with a fresh native interpreter, or the debug switch
+			cmd.Native, cmd.T = pick(r, []string{"reset", "reset", "debug"}), ""
+			if cmd.Native == "reset" {
+				var keep []natFilter
+				g.natFilters = keep
+				g.natUpdates = nil
+			}
+			break
+		}
 		if g.P.NativeUpdaters && r.Chance(0.5) {
 			// a Go updater registered under the text of an update the writers will send again
 			cmd.Upd = g.update(name, def, Item{})
